@@ -22,7 +22,21 @@ func bufIface(s *State, p *PtrV) *IfaceV {
 	return &IfaceV{Type: Const(32, uint64(tid)), Handle: h, Static: types.NewInterfaceType(nil, nil), alts: map[int]Value{tid: p}}
 }
 
+// diagnostics (printing, logging) read their arguments and change nothing the contracts speak about
+func registerDiagnosticsModel() {
+	for _, name := range []string{"fmt.Println", "fmt.Printf", "fmt.Print", "log.Println", "log.Printf", "log.Print"} {
+		isFmt := name[:3] == "fmt"
+		libTable[name] = func(s *State, fn *ssa.Function, args []Value, where string) []Value {
+			if isFmt {
+				return []Value{s.freshVar("print.n", BV(64)), s.symValue(errorType(), "print.err")}
+			}
+			return nil
+		}
+	}
+}
+
 func registerBytesBufferModel() {
+	registerDiagnosticsModel()
 	libTable["(*bytes.Buffer).Write"] = func(s *State, fn *ssa.Function, args []Value, where string) []Value {
 		b := args[0].(*PtrV)
 		p := args[1].(*SliceV)
